@@ -91,6 +91,7 @@ class Tape:
         self.nodes = []
         self.clock = 0  # set by the world: epoch counter
         self.vmax = 1.0  # largest finite |value| seen so far (absolute-error scale for cancellation)
+        self.integer_valued = True  # every value so far is an integer below 2**50 (exactness certificate)
 
     # ------------------------------------------------------------------ construction
     def _add(self, kind, parents, params, const):
@@ -103,6 +104,8 @@ class Tape:
             m = float(np.max(np.abs(val)))
             if np.isfinite(m) and m > self.vmax:
                 self.vmax = m
+            if self.integer_valued and not (np.isfinite(m) and m < 2.0**50 and np.all(val == np.round(val))):
+                self.integer_valued = False
         self.nodes.append(n)
         return n.i
 
@@ -114,6 +117,8 @@ class Tape:
             m = float(np.max(np.abs(v)))
             if np.isfinite(m) and m > self.vmax:
                 self.vmax = m
+            if self.integer_valued and not (np.isfinite(m) and m < 2.0**50 and np.all(v == np.round(v))):
+                self.integer_valued = False
         self.nodes.append(n)
         return n.i
 
@@ -122,6 +127,7 @@ class Tape:
         n = Node(len(self.nodes), "opaque", tuple(parents), None, v, bool(const))
         n.born = self.clock
         n.opaque = True
+        self.integer_valued = False
         self.nodes.append(n)
         return n.i
 
